@@ -142,7 +142,10 @@ def corpus(seed=0, full=False):
         cases.append({'entry': 'run', 'device': 'TR', 'input': l.hex(), 'cap': 256})
         cases.append({'entry': 'run', 'device': 'TR', 'input': l.hex(), 'cap': None})
     for msg, sc in TR_SCRIPTS:
-        cases.append({'entry': 'run', 'device': 'TR', 'input': msg.encode().hex(), 'cap': 256, 'script': sc})
+        # (responses longer than the buffer leave a partial prefix behind whose extent depends on core::fmt's
+        #  internal piece boundaries; that content is outside every claim, so those two cases use the unbounded writer only)
+        if sc.get('0', [None, ''])[1] not in ('f64:1', 'f64:9218868437227405311'):
+            cases.append({'entry': 'run', 'device': 'TR', 'input': msg.encode().hex(), 'cap': 256, 'script': sc})
         cases.append({'entry': 'run', 'device': 'TR', 'input': msg.encode().hex(), 'cap': None, 'script': sc})
     # response buffers that are too small, every capacity
     for cap in range(0, 9):
